@@ -18,7 +18,9 @@ import (
 	"time"
 
 	"google.golang.org/grpc"
+	"google.golang.org/grpc/codes"
 	"google.golang.org/grpc/metadata"
+	"google.golang.org/grpc/status"
 
 	"github.com/GoogleCloudPlatform/grpc-gcp-go/grpcgcp"
 
@@ -48,9 +50,10 @@ type Op struct {
 
 type Plan struct {
 	Profile    string `json:"profile"`
-	Fails      int    `json:"fails"`       // first stream creations that fail
-	BlockFirst bool   `json:"block_first"` // creation blocks until OpUnblock
-	Deadline   int    `json:"deadline_ms"` // 0 none
+	Fails      int    `json:"fails"`               // first stream creations that fail
+	ErrKinds   int    `json:"err_kinds,omitempty"` // > 0: every failure has another concrete error type
+	BlockFirst bool   `json:"block_first"`         // creation blocks until OpUnblock
+	Deadline   int    `json:"deadline_ms"`         // 0 none
 	Concurrent bool   `json:"concurrent"`
 	Strategy   int    `json:"strategy"`
 	EarlyProbe bool   `json:"early_probe"` // probes before the stream exists are allowed
@@ -73,6 +76,12 @@ func Generate(r *rand.Rand, profile string, concurrent bool, avoid map[string]bo
 	switch r.IntN(4) {
 	case 0:
 		p.Fails = 1 + r.IntN(2)
+		if r.IntN(4) == 0 {
+			p.Fails = 3 + r.IntN(3)
+		}
+		if r.IntN(2) == 0 {
+			p.ErrKinds = 1 + r.IntN(6)
+		}
 	}
 	p.BlockFirst = r.IntN(3) == 0
 	p.Chain = r.IntN(4) == 0
@@ -208,6 +217,7 @@ type sim struct {
 	sendSeq         int
 	keyCtx          struct{}
 	nBlocks, nFails int
+	nErrKinds       int
 	hintOp          int
 	hintN           uint64
 }
@@ -238,6 +248,47 @@ func (s *sim) vio(prop, rule, facts, msg string) {
 type ctxKey string
 
 var errCreation = errors.New("stream creation failed")
+
+// Errors a stream creation may fail with: gRPC and interceptors below this one
+// return errors of many concrete types, also within one call (a status error,
+// then a context error, ...), comparable or not.
+type creationErrs []error
+
+//go:norace
+func (e creationErrs) Error() string { return "stream creation failed (several causes)" }
+
+type creationErrVal struct{ code int }
+
+//go:norace
+func (e creationErrVal) Error() string { return "stream creation failed (value)" }
+
+type creationErrPtr struct{ code int }
+
+//go:norace
+func (e *creationErrPtr) Error() string { return "stream creation failed (pointer)" }
+
+// All values are built at package initialisation: the scheduler reads the
+// errors operations returned, and an error allocated on a task would be a
+// harness-made race (no happens-before edge from a task to the scheduler).
+var creationErrTable = func() (t [6][]error) {
+	for n := 0; n < 8; n++ {
+		t[0] = append(t[0], errCreation)
+		t[1] = append(t[1], status.Error(codes.Unavailable, "stream creation failed (status)"))
+		t[2] = append(t[2], fmt.Errorf("stream creation failed: %w", context.DeadlineExceeded))
+		t[3] = append(t[3], creationErrs{errCreation, context.Canceled})
+		t[4] = append(t[4], creationErrVal{n})
+		t[5] = append(t[5], &creationErrPtr{n})
+	}
+	return
+}()
+
+//go:norace
+func creationErr(n, kinds int) error {
+	if kinds == 0 {
+		return errCreation
+	}
+	return creationErrTable[(n+kinds)%6][n%8]
+}
 
 // cancelCtx cancels the call's context from a task of its own (the scheduler
 // goroutine is deaf to synchronisation events and must not touch the context).
@@ -285,7 +336,10 @@ func (s *sim) streamer(ctx context.Context, desc *grpc.StreamDesc, cc *grpc.Clie
 	}
 	if n <= s.plan.Fails {
 		s.nFails++
-		return nil, errCreation
+		if s.plan.ErrKinds > 0 {
+			s.nErrKinds++
+		}
+		return nil, creationErr(n, s.plan.ErrKinds)
 	}
 	s.created++
 	return &fakeCS{s: s, ctx: ctx}, nil
@@ -456,6 +510,11 @@ type sendRec struct {
 }
 
 //go:norace
+func (s *sim) noteSending(m interface{}) {
+	s.sending = kern.Push(s.sending, sendRec{t: s.k.Me(), m: m})
+}
+
+//go:norace
 func (s *sim) exec(o Op) {
 	switch o.K {
 	case OpSend:
@@ -471,7 +530,7 @@ func (s *sim) exec(o Op) {
 		}
 		s.res.Count("op:send", 1)
 		s.op("send", o.Task%2, m, func() error {
-			s.sending = kern.Push(s.sending, sendRec{t: s.k.Me(), m: m})
+			s.noteSending(m)
 			return s.cs.SendMsg(m)
 		})
 		s.settle(o)
@@ -815,6 +874,7 @@ func (s *sim) finish() {
 	s.res.Count("ops", len(s.plan.Ops))
 	s.res.Count("fault:stream_creation_blocks", s.nBlocks)
 	s.res.Count("fault:stream_creation_fails", s.nFails)
+	s.res.Count("fault:stream_creation_error_types_vary", s.nErrKinds)
 	s.res.States = append(s.res.States, uint64(s.created)<<8|uint64(s.attempts)<<4|uint64(len(s.reached)))
 }
 
@@ -899,6 +959,8 @@ func (Engine) Simplify(p simkit.Plan) []simkit.Plan {
 	}
 	add(func(c *Plan) bool { ch := c.Concurrent; c.Concurrent = false; return ch })
 	add(func(c *Plan) bool { ch := c.Fails > 0; c.Fails = 0; return ch })
+	add(func(c *Plan) bool { ch := c.Fails > 1; c.Fails--; return ch })
+	add(func(c *Plan) bool { ch := c.ErrKinds > 0; c.ErrKinds = 0; return ch })
 	add(func(c *Plan) bool { ch := c.BlockFirst; c.BlockFirst = false; return ch })
 	add(func(c *Plan) bool { ch := c.Deadline > 0; c.Deadline = 0; return ch })
 	for i, o := range pl.Ops {
